@@ -109,7 +109,37 @@ pub fn exec_guarded(f: fn(&str) -> String, case: &str) -> String {
     }
 }
 
+/// A `log` logger at Trace that formats every record into a null sink. `log` evaluates the arguments of `debug!`/`trace!`/`info!`
+/// lines only when a logger with that level is installed (the default max level is Off): with this logger every log line of the
+/// library is evaluated on every case, so a side effect hidden in a log argument (seeded change C13-15) is no longer invisible.
+/// The properties must hold whatever logging configuration the host application uses. `VERIF_NO_LOGGER=1` switches it off.
+struct SinkLogger;
+struct Sink;
+impl std::fmt::Write for Sink {
+    fn write_str(&mut self, _: &str) -> std::fmt::Result {
+        Ok(())
+    }
+}
+impl log::Log for SinkLogger {
+    fn enabled(&self, _: &log::Metadata) -> bool {
+        true
+    }
+    fn log(&self, record: &log::Record) {
+        let _ = std::fmt::Write::write_fmt(&mut Sink, *record.args());
+    }
+    fn flush(&self) {}
+}
+static SINK_LOGGER: SinkLogger = SinkLogger;
+
+/// idempotent: a second call (or a logger installed by the binary itself) is not an error
+pub fn install_sink_logger() {
+    if std::env::var_os("VERIF_NO_LOGGER").is_none() && log::set_logger(&SINK_LOGGER).is_ok() {
+        log::set_max_level(log::LevelFilter::Trace);
+    }
+}
+
 pub fn main_with(p: Prop) {
+    install_sink_logger();
     let args: Vec<String> = std::env::args().collect();
     let out = std::io::stdout();
     let mut out = std::io::BufWriter::new(out.lock());
